@@ -2,6 +2,7 @@ import PeptVerif.Model.Proto
 import PeptVerif.Model.Annotation
 import PeptVerif.Model.ModBuilder
 import PeptVerif.Spec.ModBuilder
+import PeptVerif.Model.ModBuilderRegex
 /-!
 driver for C13.
 
@@ -13,6 +14,12 @@ driver for C13.
 
 rules:  N | D<sites>~<value>;…      value(static): O<mod> | M<mod>&…     value(variable): O<mod> | F<mod>&… | G<value>!…
 term:   N | D… | X<value>           modmap: <site>~<mods>!<mods>;…
+
+rules given as patterns of the RegexLite subset (ops static_pat / variable_pat, no emptysites argument): a rule's target is
+either a site list or `P<item>/<item>…` with item = `kind:chars`, kind in b,a,n,x,c (as in Driver/C06).
+
+    ranges   pattern text          -> s:e,s:e,…     (get_regex_match_range)
+    indices  pattern text offset   -> i,i,…         (get_regex_match_indices)
 -/
 open Proto Pept Pept.Wire Pept.ModBuilder
 
@@ -72,6 +79,52 @@ def parseModMap? (s : String) : Option ModMap :=
       pure (k, gs)
     | _ => none
 
+def parseItem? (s : String) : Option RegexLite.Item :=
+  match s.splitOn ":" with
+  | [k, cs] =>
+    let cs := cs.toList
+    if k == "b" then some (.behind cs) else if k == "a" then some (.ahead cs)
+    else if k == "n" then some (.aheadNot cs) else if k == "x" then some (.notAhead cs)
+    else if k == "c" then some (.consume cs) else none
+  | _ => none
+
+def parsePattern? (s : String) : Option RegexLite.Pattern :=
+  if s.isEmpty then some [] else (s.splitOn "/").mapM parseItem?
+
+def parseTarget? (s : String) : Option Target :=
+  match s.toList with
+  | 'P' :: r => (parsePattern? (String.ofList r)).map .pat
+  | _ => (parseIntList? s).map .sites
+
+def parseRuleT? {α : Type} (pv : String → Option α) (s : String) : Option (Target × α) :=
+  match s.splitOn "~" with
+  | [t, v] => do
+    let t ← parseTarget? t
+    let v ← pv v
+    pure (t, v)
+  | _ => none
+
+def parseRulesT? {α : Type} (pv : String → Option α) (s : String) : Option (Option (List (Target × α))) :=
+  match s.toList with
+  | ['N'] => some none
+  | 'D' :: r =>
+    let body := String.ofList r
+    if body.isEmpty then some (some []) else ((body.splitOn ";").mapM (parseRuleT? pv)).map some
+  | _ => none
+
+def parseTermT? {α : Type} (pv : String → Option α) (s : String) : Option (TermT α) :=
+  match s.toList with
+  | ['N'] => some .none
+  | 'X' :: r => (pv (String.ofList r)).map .direct
+  | 'D' :: _ => do
+    let r ← parseRulesT? pv s
+    match r with
+    | some rules => pure (.dict rules)
+    | none => none
+  | _ => none
+
+def showRanges (l : List (Nat × Nat)) : String := ",".intercalate (l.map fun r => toString r.1 ++ ":" ++ toString r.2)
+
 def showAnnots (l : List Annotation) : String := " ".intercalate (l.map showAnnotation)
 
 def step (line : String) : String :=
@@ -91,6 +144,26 @@ def step (line : String) : String :=
       else if op == "spec" then showAnnots (specVariable a internal mx nterm cterm mode es)
       else "bad-op"
     | _, _, _, _, _, _, _ => "bad-op"
+  | ["static_pat", a, mode, internal, nterm, cterm] =>
+    match parseAnnotation? a, parseMode? mode, parseRulesT? parseModsIn? internal, parseTermT? parseModsIn? nterm,
+        parseTermT? parseModsIn? cterm with
+    | some a, some mode, some internal, some nterm, some cterm =>
+      showAnnotation (applyStaticPat a internal nterm cterm mode)
+    | _, _, _, _, _ => "bad-op"
+  | ["variable_pat", a, mode, mx, internal, nterm, cterm] =>
+    match parseAnnotation? a, parseMode? mode, parseInt? mx, parseRulesT? parseVarIn? internal,
+        parseTermT? parseVarIn? nterm, parseTermT? parseVarIn? cterm with
+    | some a, some mode, some mx, some internal, some nterm, some cterm =>
+      showAnnots (applyVariablePat a internal mx nterm cterm mode)
+    | _, _, _, _, _, _ => "bad-op"
+  | ["ranges", pat, text] =>
+    match parsePattern? pat with
+    | some p => showRanges (matchRanges p text.toList)
+    | none => "bad-op"
+  | ["indices", pat, text, off] =>
+    match parsePattern? pat, parseInt? off with
+    | some p, some off => showIntList (matchIndices p text.toList off)
+    | _, _ => "bad-op"
   | ["rec", a, mode, mc, mm] =>
     match parseAnnotation? a, parseMode? mode, parseInt? mc, parseModMap? mm with
     | some a, some mode, some mc, some mm => showAnnots (varRec mm mode mc a.seq.length 0 a)
